@@ -6,6 +6,8 @@ CONSTANTS
   SModelToks = {"S1"}
   CalToks = {"C1"}
   PNoiseToks = {"pnA", "pnB"}
+  AltModelToks = {"M3"}
+  AltPNoiseToks = {"pnC"}
   SNoiseToks = {"snA", "snB"}
   ConfigVals <- cConfigVals
   BogusKeys = {"bogus", "max_dt", "processnoise"}
